@@ -135,7 +135,7 @@ PARTIAL = (
     "read_back_bits is per field ((pyFloat? (fmtE d b)).map decBits = some b for every finite double, digits 16..5000): "
     "the file-level statement follows entry by entry from file_roundtrip_ascii + ascii_entry_spec but is not restated; "
     "complex elements of the sparse read additionally pass through re + 1j*im (cooEntry); (5) a scipy.sparse input in "
-    "the binary dense layout whose column record reaches 2 GiB wraps its int32 record length (finding F45, "
+    "the binary dense layout whose column record reaches 2 GiB wraps its int32 record length (finding F49, "
     "sparse_input_reclen_wraps): write_sparse_eq_write_dense excludes it by hypothesis, the reader on such a file is not "
     "modelled; (6) dir / load on ASCII variants the writer never produces and files with carriage returns are outside "
     "(C11); the ASCII writer's ValueError above 99 999 999 rows is not modelled"
@@ -173,7 +173,7 @@ MANIFEST = {
     "duplicates, explicit zeros, unsorted indices). Library behaviour is modelled by what it computes and checked by "
     "correspondence only: sp.find / tocoo / toarray (summation order of duplicates), astype, np.allclose (automatic "
     "form), struct, '%E', int(), float(). Finding "
-    "F45 (int32 wrap of a 2 GiB dense record of a sparse input) is reproduced by the oracle in the thorough tier only. "
+    "F49 (int32 wrap of a 2 GiB dense record of a sparse input) is reproduced by the oracle in the thorough tier only. "
     "Trusted: Lean kernel; propext, Classical.choice, Quot.sound; the Python harness; CPython / numpy / scipy as listed.",
     "technique": "Lean 4 proof (induction over lines/strings/columns/matrices, omega on the packed header, bisection "
     "invariant for the %E exponent, rational arithmetic for the half-unit bound and for round-to-nearest of a decimal "
@@ -182,7 +182,7 @@ MANIFEST = {
     "fields, blocks and write arguments",
 }
 
-NEW_F45 = "op4-binary-dense-sparse-input-record-ge-2GiB-int32-wrap"
+FIXED_F49 = "op4-binary-dense-sparse-input-record-ge-2GiB-int32-wrap"
 KNOWN_F2 = "op4-binary-nonbigmat-string-ge-16384-rows"
 KNOWN_F3 = "op4-ascii-negative-3digit-exponent"
 FIXED_F24 = "op4-binary-skip-zero-column-matrix"  # found by this check, repaired in /repo (fix: commit 24d6cc5)
@@ -2002,19 +2002,19 @@ def _shrink(op4, sc, case, binary, rng):
     return best
 
 
-def _oracle_f45(ctx, op4, sc):
+def _oracle_f49(ctx, op4, sc):
     try:
         avail = int([ln for ln in open("/proc/meminfo") if ln.startswith("MemAvailable")][0].split()[1]) // 1024 ** 2
         free_gb = shutil.disk_usage("/tmp").free // 1024 ** 3
     except Exception:  # noqa: BLE001
         avail, free_gb = 0, 0
     if avail < 24 or free_gb < 8:
-        ctx.skip("F45 reproduction needs 24 GB of memory and 8 GB of scratch space")
+        ctx.skip("F49 reproduction needs 24 GB of memory and 8 GB of scratch space")
         return
     n = 2 ** 28 - 1
     A = sp.coo_matrix((np.array([1.0, 2.0]), ([0, n - 1], [0, 0])), shape=(n, 1))
     p = sc.path()
-    ctx.count("oracle:f45-2GiB-record")
+    ctx.count("oracle:f49-2GiB-record")
     inp = {"input": "scipy.sparse.coo_matrix(([1.0, 2.0], ([0, 2**28 - 2], [0, 0])), shape=(2**28 - 1, 1))",
            "call": "op4.write(f, ['a', 'z'], [A, numpy.eye(2)], sparse='dense'); op4.dir(f)"}
     try:
@@ -2026,7 +2026,7 @@ def _oracle_f45(ctx, op4, sc):
         return  # a refused write is what the ndarray path does: fine
     except MemoryError:
         os.path.exists(p) and os.remove(p)
-        ctx.skip("F45 reproduction: MemoryError")
+        ctx.skip("F49 reproduction: MemoryError")
         return
     try:
         reclen = struct.unpack("<i", open(p, "rb").read(36)[32:36])[0]
@@ -2037,7 +2037,7 @@ def _oracle_f45(ctx, op4, sc):
         except Exception as e:  # noqa: BLE001
             ok, obs = False, "dir raises %s: %s" % (type(e).__name__, e)
         if reclen < 0 or not ok:
-            ctx.fail(NEW_F45, "binary dense-layout write of a scipy.sparse input whose column record is >= 2 GiB: the record "
+            ctx.fail(FIXED_F49, "binary dense-layout write of a scipy.sparse input whose column record is >= 2 GiB: the record "
                      "length is computed in numpy int32 arithmetic and wraps", inp,
                      "record marker %d; %s" % (reclen, obs), "struct.error like the ndarray path, or a readable file")
             ctx.extra["unknown_failures"] = ctx.extra.get("unknown_failures", 0) + 1
@@ -2162,10 +2162,10 @@ def search(ctx, hints):
             ctx.fail("op4-write-3d-input", "a 3-d array is accepted", {"shape": [2, 2, 2]}, "no exception", "ValueError")
         except ValueError:
             pass
-        # F45: a sparse input in the dense layout whose column record reaches 2 GiB (needs ~9 GB of memory and a
+        # F49: a sparse input in the dense layout whose column record reaches 2 GiB (needs ~9 GB of memory and a
         # 2 GiB scratch file: thorough tier only, and only when the machine has the room)
         if ctx.thorough:
-            _oracle_f45(ctx, op4, sc)
+            _oracle_f49(ctx, op4, sc)
         # ASCII variant files (reader only)
         for _ in range(ctx.pick(300, 2500)):
             _oracle_variant(ctx, op4, sc, _gen_vcase(rng))
@@ -2190,11 +2190,11 @@ def replay(ctx, data):
     if not f:
         return None
     j = f["input"]
-    if f.get("family") == NEW_F45:
+    if f.get("family") == FIXED_F49:
         sc = _Scratch()
         try:
             before = len(ctx.failures)
-            _oracle_f45(ctx, op4, sc)
+            _oracle_f49(ctx, op4, sc)
             return dict(ctx.failures[-1]) if len(ctx.failures) > before else None
         finally:
             sc.close()
